@@ -447,15 +447,14 @@ def renames(req):
 
 def random_history(rng, pool, n, backed=False):
     """n requests sampled from the matrix pool; the store evolves (requests that were generated
-    against the fixture now meet deleted, replaced and newly created resources).  Identifier-changing
-    PUTs of identifiables are left out on a local-file store (open finding, outside the model)."""
+    against the fixture now meet deleted, replaced and newly created resources)."""
     out = []
     while len(out) < n:
         r = rng.choice(pool)
         if r.get("oracle_only"):
             continue
-        if backed and (renames(r) and r["body"][2]["k"] != "elem" or (r["method"] == "POST" and r.get("path") == "l1")):
-            continue    # open findings on a local-file store that are outside the model (see scenarios())
+        if backed and r["method"] == "POST" and r.get("path") == "l1":
+            continue    # open finding on a local-file store that is outside the model (see scenarios())
         if backed and r["rule"] in ("/shells", "/submodels", "/concept-descriptions") and r["method"] in ("GET", "HEAD"):
             r = dict(r, query=[(k, v) for (k, v) in r["query"] if k not in ("limit", "cursor")])  # directory order
             r.pop("must_reject", None)
@@ -507,8 +506,8 @@ def tok_history(rng, n):
 
 
 def scenarios():
-    """directed histories for the known open findings: (label, backed, requests, index of the
-    request the finding is about, signature, oracle_only)"""
+    """directed histories (repaired and open findings, refusals that must change nothing):
+    (label, backed, requests, oracle_only)"""
     J = (None, "json")
     def rq(rule, method, body=("none",), **kw):
         return dict({"rule": rule, "method": method, "accept": J, "query": [], "body": body, "cls": kw.pop("cls", "scenario")}, **kw)
@@ -519,14 +518,23 @@ def scenarios():
         conv = {"sm": "submodel_id", "aas": "aas_id", "cd": "concept_id"}[arg]
         one = f"{rule}/<base64url:{conv}>"
         for backed in (False, True):
+            # a PUT that changes the id files the object anew; the id of another object is refused (409, nothing changed)
             reqs = [rq(rule, "POST", ("val", "json", mk("urn:a"))),
-                    rq(one, "PUT", ("val", "json", mk("urn:b")), **{arg: b64("urn:a")}),
+                    rq(rule, "POST", ("val", "json", dict(mk("urn:c"), tok=3))),
+                    rq(one, "PUT", ("val", "json", mk("urn:b")), cls="put-other-id", **{arg: b64("urn:a")}),
                     rq(one, "GET", **{arg: b64("urn:a")}),
                     rq(one, "GET", **{arg: b64("urn:b")}),
-                    rq(one, "DELETE", **{arg: b64("urn:a")})]
-            for r in reqs[2:]:
-                r["sig"] = ("local-file-" if backed else "") + "after-id-changing-put"
-            out.append((f"rename-{k}-{'file' if backed else 'mem'}", backed, reqs, backed))
+                    rq(rule, "GET"),
+                    rq(one, "DELETE", **{arg: b64("urn:a")}),
+                    rq(one, "PUT", ("val", "xml", dict(mk("urn:c"), tok=2)), cls="put-taken-id", **{arg: b64("urn:b")}),
+                    rq(one, "GET", **{arg: b64("urn:b")}),
+                    rq(one, "GET", **{arg: b64("urn:c")}),
+                    rq(one, "PUT", ("val", "json", dict(mk("urn:a"), tok=4)), cls="put-other-id", **{arg: b64("urn:b")}),
+                    rq(one, "GET", **{arg: b64("urn:a")}),
+                    rq(one, "DELETE", **{arg: b64("urn:b")}),
+                    rq(one, "DELETE", **{arg: b64("urn:a")}),
+                    rq(rule, "GET")]
+            out.append((f"rename-{k}-{'file' if backed else 'mem'}", backed, reqs, False))
     # PUT of a qualifier onto the type of another qualifier of the same object: 409 and nothing changed
     smone = "/submodels/<base64url:submodel_id>"
     for where, path in (("sm", None), ("elem", "p1")):
